@@ -195,8 +195,14 @@ def run_correspondence(ck, known):
     ck.extra["input_distribution"] = {"classes": hist, "sites": sites, "rejected_by_parser_or_planner": rejs,
                                       "verdict_codes": CODE}
     samples = [by_id[i] for i in list(by_id)[:400:140]]
+
+    def around(c):
+        q = bytes.fromhex(c["sql"])
+        k = q.find(bytes.fromhex(c["val"])[:2]) if c["val"] else -1
+        k = max(0, k - 60) if k >= 0 else max(0, len(q) - 160)
+        return q[k:k + 170].decode("utf8", "backslashreplace")
     ck.add_samples([{"site": c["site"], "value": bytes.fromhex(c["val"]).decode("utf8", "backslashreplace"),
-                     "sql_tail": bytes.fromhex(c["sql"]).decode("utf8", "backslashreplace")[-160:]} for c in samples])
+                     "statement_excerpt": around(c)} for c in samples])
 
 
 def run_sites(ck):
